@@ -467,7 +467,12 @@ func c09r9(c *Ctx) {
 		return
 	}
 	ok := false
-	if be, isB := prog.Unparen(loop.Cond).(*ast.BinaryExpr); isB && be.Op == token.LSS {
+	cond := loop.Cond
+	if as := prog.Decompose(loop.Cond, true, loop); len(as) == 1 && as[0].Op == token.LSS {
+		// `!(a >= b)` and `a < b` are the same bound
+		cond = &ast.BinaryExpr{X: as[0].X, Op: token.LSS, Y: as[0].Y, OpPos: loop.Cond.Pos()}
+	}
+	if be, isB := prog.Unparen(cond).(*ast.BinaryExpr); isB && be.Op == token.LSS {
 		bound := prog.Unparen(prog.StripConv(info, be.Y))
 		isSize := func(e ast.Expr) bool {
 			call, isC := prog.Unparen(prog.StripConv(info, e)).(*ast.CallExpr)
